@@ -362,6 +362,15 @@ def oracle_c06(rr: Any, spec: Dict[str, Any]) -> "tuple[List[Violation], int]":
             if e.get("tok") != tok_of.get(e["m"]):
                 v.append(Violation("args-crosstalk", f"task of delivery {e['m']} received token {e.get('tok')}"))
             _walk_deps(e.get("deps"), e["m"], chk, spec)
+        elif e["k"] == "progress":
+            want = tok_of.get(e["m"])
+            checked += 1
+            if not isinstance(e.get("meta"), dict) or e["meta"].get("tok") != want:
+                v.append(Violation("progress-crosstalk", f"progress of delivery {e['m']} ({want}) carries meta {e.get('meta')} of another message"))
+        elif e["k"] == "set_progress":
+            want = tok_of.get(e["m"])
+            if e["task_id"] != want:
+                v.append(Violation("progress-crosstalk", f"progress reported by delivery {e['m']} ({want}) stored under {e['task_id']}"))
         elif e["k"] == "set_enter":
             want = tok_of.get(e["m"])
             checked += 1
@@ -549,12 +558,21 @@ def oracle_c10(rr: Any, spec: Dict[str, Any]) -> "tuple[List[Violation], int]":
         if e["k"] in ("mw:pre_send", "mw:post_send", "kick", "kick_fail", "send_ok", "send_err", "send_begin"):
             tok = e.get("tok") or e.get("task_id")
             sends[tok].append(e)
+    via2 = {c["tok"] for c in spec.get("client_sends", []) if c.get("via_broker2")}
+    mws2 = spec.get("mws2", [])
     for tok, evs in sends.items():
         if first(evs, "send_begin") is None:
             continue
         checked += 1
         seq = [(e["k"], e.get("mw")) for e in evs if e["k"] not in ("send_begin", "send_ok", "send_err", "kick_fail")]
         failed = first(evs, "kick_fail") is not None
+        if tok in via2:
+            # sent with kicker.with_broker(other): the hooks of the *receiving* broker's middlewares apply
+            want = [("mw:pre_send", 100 + j) for j, m in enumerate(mws2) if "pre_send" in m] + [("kick", None)]
+            want += [("mw:post_send", 100 + j) for j, m in enumerate(mws2) if "post_send" in m]
+            if seq != want:
+                v.append(Violation("client-hook-order", f"send {tok} via with_broker(): observed {seq}, expected {want}"))
+            continue
         want = [("mw:pre_send", i) for i in overriding("pre_send")] + [("kick", None)]
         if not failed:
             want += [("mw:post_send", i) for i in overriding("post_send")]
